@@ -452,6 +452,10 @@ func (c *PullClient) newRequest(method string, url *url.URL) *Request {
 }
 
 func (c *PullClient) receiveResponse() (resp *Response, err error) {
+	// 握手阶段的每次应答都要有期限，否则不应答的摄像头会让请求者永远阻塞
+	if timeout := config.NetTimeout(); timeout > 0 {
+		c.conn.SetReadDeadline(time.Now().Add(timeout))
+	}
 	resp, err = ReadResponse(c.conn.Reader())
 	if err != nil {
 		return nil, err
